@@ -35,6 +35,22 @@ CLAIMED["C20"] = {
     "note": "Outside the model: the C++ memory model below sequential consistency, compiler-introduced accesses, libstdc++/malloc internals; the footprint extractor is trusted for completeness of write sites (hypothesis `respects` of C20_table_racefree). A clean TSan run proves nothing; it only supplies failing schedules.",
     "design": "5 C20"}
 
+CLAIMED["C12"] = {
+    "technique": "Coq proof (hinted insertion = plain insertion for every strict weak order, sorted list, hint and value) transferred by translation validation to the decision tree regenerated from clang's AST of FlatSet::insert_hint; complete enumeration of a small key domain on the implementation",
+    "text": "Theorems C12_hint_irrelevant (the nine-exit decision tree of flatset.hpp returns the same list AND position as plain insertion, for every comparator that is a strict weak order, every sorted content of any length, every hint in [begin,end], every value), C12_result_sorted (result stays sorted, returned position holds an element equivalent to the value) and C12_hint_irrelevant_regenerated: the same statement about Gen/HintGen.v, which translator/hint2coq.py regenerates on every run from clang's AST of the instantiated FlatSet<int>::insert_hint and which HintTV.v proves equal to the hand model (a pure program equivalence). An edit of any exit changes the generated program and breaks insert_hint_tv unless it is semantically neutral. The check also enumerates all subsets of a 6-key (thorough 8) domain x all hints x all values on all 16 set configurations (four underlying vectors, less/greater/coarse/stateful comparators, SmallSet on top) against plain insert and std::set::insert(hint,v).",
+    "note": "Trusted: Coq kernel, hint2coq.py + clang AST (iterators as offsets, std::lower_bound and the vector insert as primitives specified in HintPrims.v), the set driver. std::lower_bound is modelled by its specification (partition point).",
+    "design": "5 C12"}
+CLAIMED["C15"] = {
+    "technique": "Coq proof over a slot-level model with a throw oracle (every algorithm x implementation variant x length x throw index) + exhaustive small-scope correspondence of the model's run_case with the real algorithms built under C++11/14/17/20, compared with the std algorithms",
+    "text": "Theorems C15_* (coq/Properties_C15.v): for uninitialized_copy/_n, uninitialized_move/_n, value/default construct (_n), relocate_at and uninitialized_relocate/_n, in each implementation variant selected by the #if ladder / ImplModeFactory (generic loop with its try/catch clean-up, memcpy in a loop, memcpy, std-delegating): without a throw the result equals the specification (same slots, same returned advances); if the k-th construction throws, everything the call built is destroyed, relocate sources stay alive, nothing else is touched; bitwise variants agree with the generic one and are never selected for a category that forbids bit copies - for every length, memory, throw index. The executable run_case of the model is evaluated by coqc on the same finite case list (lengths 0..4, thorough 0..6; 7 iterator kinds; 5 element types; every throw index) that the C++ driver runs under -std=c++11/14/17/20 (sanitized, thorough also -O2); every line must agree with the model, with the std algorithms (C++17 build) and across standards.",
+    "note": "Trusted: the driver's instrumented element types and ledger; lifetime of trivially copyable elements is not observable (only bits). std algorithms' own behaviour is the reference, not verified.",
+    "design": "5 C15"}
+CLAIMED["C19"] = {
+    "technique": "Coq proof (comparison count of the binary-search loop <= floor(log2 n)+1 for every n and comparator outcome; two searches + 4 within the property's bound) + comparator-call counters on the implementation for every n, key rank and correct hint",
+    "text": "Theorems C19_lower_bound_log (the halving loop of std::lower_bound as implemented by libstdc++, with ANY comparator outcome function, performs at most floor(log2 n)+1 comparisons on n elements), C19_bound_form and C19_lookup_bound (two searches plus four comparisons stay within 2*ceil(log2(n+1))+4). The check counts the comparator calls of every FlatSet lookup / insert / erase-by-key for every n up to 48 (thorough 300) and every key rank, of hinted insertion for every correct hint (bounded by a constant: 4 observed, 6 allowed) and of inline SmallSet lookups (<= 2N+2), on all 16 configurations; the decision tree of insert_hint is the regenerated one (HintTV.v).",
+    "note": "The halving loop is libstdc++'s, modelled not regenerated: the tie is the counter comparison on the implementation. Constants added by callers (equivalence tests) are bounded by inspection and by the counters.",
+    "design": "5 C19"}
+
 REASONS = {}
 
 
